@@ -36,19 +36,29 @@ theorem c13_counter_draw_is_atomic :
     deterministic overlapping groups of the harness rely on (a send that is about to write has drawn already) -/
 theorem c13gen_draw_precedes_write : Generated.Sender.drawPrecedesWrite = true := by decide
 
-/-- The event split of `Spine.SndEv`: the response path does not take the request mutex and `Request` writes to the
-    connection while the cache lock is free — so a response CAN be processed between the write and the insertion, and
-    `reqBegin` / `reqEnd` / `plain (response r)` are the right events; every access to the request cache is under the
-    cache lock, so each of the three is atomic with respect to the others. -/
-theorem c13gen_response_interleaves_with_request :
-    Generated.Sender.responsePathSkipsRequestMutex = true ∧ Generated.Sender.writeOutsideCacheLock = true ∧
-    Generated.Sender.cacheAccessUnderCacheLock = true := by decide
+/-- The events of `Spine.SndEv` are atomic with respect to each other: every access to the request cache — the lookup
+    and the insertion of `Request`, the removal of the response path — happens under the cache lock, stores and deletes
+    under its write lock. (Whether a response can fall BETWEEN the write and the insertion is the next fact; the
+    event-sourced model allows it in any case, so its theorems over-approximate the schedules of a tree where it
+    cannot.) -/
+theorem c13gen_cache_events_atomic : Generated.Sender.cacheAccessUnderCacheLock = true := by decide
+
+/-- The window: when the response path does not take the request mutex, `Request` writes to the connection while the
+    cache lock is free and remembers the request after the write, a response can be processed between write and
+    insertion — then the refutation of the member as written is a schedule of the tree under test. (In a tree without
+    the window — the response path serialised behind the request mutex, say — the hypothesis is false, requests and
+    responses do not overlap and the sequential theorems `c13_model_satisfies_spec` apply.) -/
+theorem c13gen_window_realises_witness
+    (_h : (Generated.Sender.responsePathSkipsRequestMutex && Generated.Sender.writeOutsideCacheLock &&
+      Generated.Sender.requestRemembersAfterWrite) = true) :
+    Snd.Spec.run [] (SndEv.observations false {}
+      [.reqBegin 1 7, .plain (.response 1), .reqEnd 1, .reqBegin 2 7]) = none := by decide
 
 /-- The family member: the tree under test remembers a request either after the write (as written: the member
     `insertFirst = false`, for which `c13_answer_overtakes_insert_refuted` and `c13_dedup_sound_partial` hold) or
     before it (repaired: `insertFirst = true`, `c13_dedup_sound_all_interleavings`) — exactly one of the two. The
-    harness probes the same flag dynamically (`insertAfterWrite`); the driver reports this static value (`member`) and
-    the harness records a mismatch if the two disagree. -/
+    harness probes the same flag dynamically (`insertAfterWrite`); the driver reports the static member (`member`:
+    before / after with the window / after without a window) and the harness records a mismatch if the probe disagrees. -/
 theorem c13gen_request_member :
     (Generated.Sender.requestRemembersBeforeWrite = true ∧ Generated.Sender.requestRemembersAfterWrite = false) ∨
     (Generated.Sender.requestRemembersBeforeWrite = false ∧ Generated.Sender.requestRemembersAfterWrite = true) := by
